@@ -895,6 +895,13 @@ func (x *Exec) run(s *State, kind string, op Op, caseID int, step int) bool {
 		case "two":
 			auxOp("refundlock", s.I.AuxEmb, deposit, 8000)
 			again()
+		case "termemb":
+			if s.I.Addr != nil {
+				sp := x.buildTx(s, kind, Op{M: "terminate", Arg: "valid", Amt: "zero", Gas: "enough", Who: op.Who, Pair: "no"}, from, nonce)
+				plan = append(plan, planned{tx: x.priceTx(n, sp, 25000), kind: kind, role: "tail"})
+				nonce++
+			}
+			auxOp("refundlock", s.I.AuxEmb, deposit, 8000)
 		}
 	}
 
